@@ -126,6 +126,11 @@ def build(draw, d, prof, name):
     v = gen.biased_version(draw, lo, 39, prof.boundaries)
     if name in NEEDS_PROVIDER and not d.providers:
         name = 'create_rp'
+    if name in ('create_rp', 'create_root') and not gen.free_uuids(d) and \
+            draw(st.integers(0, 3)) > 0:
+        # the pool is exhausted: make room instead of producing yet another
+        # duplicate-uuid refusal
+        name = 'delete_rp'
     defect = None
     rate = min(prof.defect_rate, 1) if name == 'create_rp' \
         else prof.defect_rate
